@@ -6,7 +6,7 @@ CONSTANT NWD = 3
 CONSTANT NS = 3
 CONSTANT WMax = 2
 CONSTANT Modes = {"und"}
-CONSTANT PFirst = {1, 2, 3, 4, 5}
+CONSTANT PFirst = {1, 2}
 INVARIANT GroupLaws
 INVARIANT DegreesEquivariant
 INVARIANT ReachEquivariant
